@@ -837,10 +837,37 @@ package logqlengine
 
 //@ scope label_format.go
 
+// label_format dst="template": every template is expanded into an emptied buffer and dst becomes
+// exactly that expansion; a template that fails flags the line and sets nothing; renames run first.
 //@ func (*LabelFormat).Process
 //@   requires set.labels != nil
+//@   capture rn = call(lf.rename.Process, 0)
+//@   capture rs = call(lf.buf.Reset, 0)
+//@   capture ex = call(p.Template.Execute, 0)
 //@   modifies *
+//@   ensures[never-drops] keep && rn_called && ret0 == rn_r0
 //@   loop 0 invariant set.labels != nil
+//@   loop 0 body_ensures[buffer-emptied-before-every-template] rs_called && ex_called && before(ex_called, bufferContent(lf.buf)) == ""
+//@   loop 0 body_ensures[target-is-exactly-the-expansion] ex_r0 == nil ==> has(set.labels, p.Label) && same(set.labels[p.Label], pcommon.NewValueStr(bufferContent(lf.buf)))
+//@   loop 0 body_ensures[failed-template-flags-the-line] ex_r0 != nil ==> has(set.labels, logql.ErrorLabel)
+
+// Renames keep the order they have in the query; templates likewise.
+//@ func buildLabelFormat
+//@   ensures[renames-in-query-order] ret1 == nil && len(stage.Values) == 0 ==> typeis[*RenameLabel](ret0) && same(as[*RenameLabel](ret0).pairs, stage.Labels)
+//@   ensures[renames-then-templates] ret1 == nil && len(stage.Values) != 0 ==> typeis[*LabelFormat](ret0) && same(as[*LabelFormat](ret0).rename.pairs, stage.Labels) && len(as[*LabelFormat](ret0).formats) == len(stage.Values)
+//@   loop 0 modifies format.formats, format.formats[*]
+//@   loop 0 invariant format != nil && fresh(format) && fresh(format.formats) && len(format.formats) == rangeindex+1 && rangeindex+1 <= len(stage.Values)
+
+// Frames only (assumed): compiling a template and fetching a scratch buffer allocate; they do not
+// write the stage being built.
+//@ func compileTemplate
+//@   trusted
+//@   modifies nothing
+//@   ensures ret1 == nil ==> ret0 != nil
+//@ func getTemplateBuffer
+//@   trusted
+//@   modifies nothing
+//@   ensures ret0 != nil
 
 //@ scope drop.go
 
